@@ -1,7 +1,12 @@
 """C02 — TLE fields are decoded exactly as encoded in their fixed columns."""
+import atexit
 import datetime as _dt
+import io
 import math
+import os
+import shutil
 import sys
+import tempfile
 import traceback
 from decimal import Decimal
 from fractions import Fraction
@@ -14,6 +19,7 @@ LEAN_TARGETS = ["PV.Props.C02"]
 # T-D: functions translated from the source by harness/pytrans.py, proved equal to the model (DESIGN section 0)
 EQUIV = {"PV.Equiv.TranslatedParse": ["read_tle_decimal_eq", "parse_tle_eq", "init_eq_model"],
          "PV.Equiv.TranslatedInit": ["init_order", "init_lines_eq", "init_lines_eq_tleOfLines"]}
+EQUIV.update({"PV.Equiv.TranslatedStr": ["filter_public", "str_eq", "str_reads_items"]})      # T-D, sixth wave
 RULE = ("correspondence: Lean model (interpreter of the column table regenerated from the AST of Tle._parse_tle) vs "
         "tlefile.Tle(line1=, line2=) on (a) encoder-generated TLEs over the full printable range of every column "
         "(tlegen.full_range_fields: 3-digit angles, 5-digit revolution numbers, every sign/exponent combination, blank- or "
@@ -26,7 +32,10 @@ RULE = ("correspondence: Lean model (interpreter of the column table regenerated
         "(1 ulp), integer epoch arithmetic, stripped lines; a third of the objects are then used the way callers use them "
         "(str/repr/print/format/logging, copy, deepcopy, pickle, vars/dir, attributes read twice, a sibling object from the "
         "same lines printed) and the statement is evaluated on the same object again after each use; some are judged as "
-        "Orbital(...).tle before and after str(Orbital).  A case is non-trivial when it is a distinct (line1, line2) pair; "
+        "Orbital(...).tle before and after str(Orbital); about one object in seven is built from the two lines AND a tle_file "
+        "(a StringIO or a path holding OTHER element sets under the same platform name / catalogue number and under other "
+        "names) through Tle(...), tlefile.read(...) or Orbital(...), keyword or positional spelling: the statement is about "
+        "the lines that were given, so the object must show THEIR columns.  A case is non-trivial when it is a distinct (line1, line2) pair; "
         "distinct = (line1, line2).")
 ASSUMPTIONS = [
     "input restricted to printable ASCII (Python's Unicode digits / whitespace are outside the Text model)",
@@ -474,18 +483,104 @@ def use_probe(ctx, t, f, in1, in2, case, uses, via):
     return 0
 
 
-def orbital_probe(ctx, f, in1, in2, case, uses):
+# ------------------------------------------------------------------ objects built from the lines AND a tle_file
+# "line1/line2 are the input lines": when the caller passes the two lines, the object describes THOSE lines, whatever else is
+# passed along (a wrapper that always hands over its catalogue file and overrides it with fresh lines).  The file holds other
+# element sets - under the very platform name / catalogue number asked for, and under other names.
+_TMP = {"dir": None, "n": 0}
+GIVEN_PLATFORMS = ["x", "NOAA-19", "METOP-B", "ISS (ZARYA)", "pvsat 7"]
+OTHER_NAMES = ["NOAA-18", "METOP-C", "SUOMI NPP", "X-2", "AQUA", "PVSAT", "ISS"]
+
+
+def _tmpdir():
+    if _TMP["dir"] is None or not os.path.isdir(_TMP["dir"]):
+        _TMP["dir"] = tempfile.mkdtemp(prefix="pv-c02-")
+        atexit.register(shutil.rmtree, _TMP["dir"], ignore_errors=True)
+    return _TMP["dir"]
+
+
+def draw_given(rng, spelling=None):
+    """A tle_file passed ALONG with the lines: {kind: stringio|path, platform, text, spelling: kw|pos}."""
+    tlefile = _tlefile()
+    platform = rng.choice(GIVEN_PLATFORMS)
+    name = platform.strip().upper()
+    number = tlefile.SATELLITES.get(name)
+    entries = []
+    for _ in range(rng.choice([1, 1, 2])):          # other element sets filed under the platform that is asked for
+        g = tlegen.full_range_fields(rng, statement_years=True) if rng.random() < 0.5 else tlegen.random_fields(rng, "any")
+        if number is not None and rng.random() < 0.5:
+            a, b = tlegen.encode(dict(g, satnum=number))
+            entries.append((rng.choice([None, name]), a, b))      # found by catalogue number, with or without a name line
+        else:
+            a, b = tlegen.encode(g)
+            entries.append((name, a, b))
+    for _ in range(rng.choice([0, 1, 2, 3])):       # and under other names
+        if rng.random() < 0.5:
+            _, a, b = rng.choice(tlegen.REAL_TLES)
+        else:
+            a, b = tlegen.encode(tlegen.random_fields(rng, "any"))
+        entries.append((rng.choice(OTHER_NAMES), a, b))
+    if rng.random() < 0.15:
+        entries = [e for e in entries if e[0] != name and e[0] is not None]      # a file that does not hold the platform at all
+    rng.shuffle(entries)
+    text = "".join(("%s\n" % n if n is not None else "") + a + "\n" + b + "\n" for (n, a, b) in entries)
+    return {"kind": rng.choice(["stringio", "path"]), "platform": platform, "text": text,
+            "spelling": spelling or rng.choice(["kw", "kw", "pos"])}
+
+
+class _Given(object):
+    """Context manager: the tle_file object of a descriptor (a fresh stream / a fresh file that is removed afterwards)."""
+
+    def __init__(self, desc):
+        self.desc, self.path = desc, None
+
+    def __enter__(self):
+        if self.desc["kind"] == "stringio":
+            return io.StringIO(self.desc["text"])
+        _TMP["n"] += 1
+        self.path = os.path.join(_tmpdir(), "given-%d-%d.tle" % (os.getpid(), _TMP["n"]))
+        with open(self.path, "w", newline="") as fh:
+            fh.write(self.desc["text"])
+        return self.path
+
+    def __exit__(self, *exc):
+        if self.path is not None:
+            try:
+                os.unlink(self.path)
+            except OSError:
+                pass
+        return False
+
+
+def build(how, in1, in2, given=None):
+    """The object under the statement, built through one public entry point: Tle | read | Orbital.tle; with `given`, the
+    lines AND a tle_file are passed (keyword or positional spelling)."""
+    tlefile = _tlefile()
+    if how == "Orbital.tle":
+        from pyorbital.orbital import Orbital
+        fn = Orbital
+    else:
+        fn = tlefile.read if how == "read" else tlefile.Tle
+    if given is None:
+        return fn("x", line1=in1, line2=in2)
+    with _Given(given) as tf:
+        if given.get("spelling") == "pos":
+            return fn(given["platform"], tf, in1, in2)
+        return fn(given["platform"], tle_file=tf, line1=in1, line2=in2)
+
+
+def orbital_probe(ctx, f, in1, in2, case, uses, given=None):
     """observe_at: Orbital(...).tle - the element set an Orbital holds, right after construction and after the Orbital and
     its element set have been used.  Element sets the propagator refuses are not a matter of this statement."""
     try:
-        from pyorbital.orbital import Orbital
-        orb = Orbital("x", line1=in1, line2=in2)
+        orb = build("Orbital.tle", in1, in2, given)
     except Exception as e:  # noqa
         ctx.count("orbital_refused")
         return 0
     ctx.count("eval_oracle_orbital")
     c = dict(case, via="Orbital.tle")
-    if check_object(ctx, orb.tle, f, in1, in2, c):
+    site = "Tle._parse_tle" if given is None else "Orbital.__init__ / tlefile.read / Tle._read_tle"
+    if check_object(ctx, orb.tle, f, in1, in2, c, site=site):
         return 1
     try:
         str(orb)
@@ -497,27 +592,27 @@ def orbital_probe(ctx, f, in1, in2, case, uses):
     return use_probe(ctx, orb.tle, f, in1, in2, case, uses, "Orbital.tle")
 
 
-def oracle_case(ctx, f, l1, l2, in1, in2, how="Tle", uses=(), orbital=False):
-    tlefile = _tlefile()
-    case = {"line1": in1, "line2": in2, "via": how}
+def oracle_case(ctx, f, l1, l2, in1, in2, how="Tle", uses=(), orbital=False, given=None):
+    base = {"line1": in1, "line2": in2}
+    if given is not None:
+        base["tle_file"] = given
+        ctx.count("eval_oracle_lines_and_file")
+    case = dict(base, via=how)
     if how == "Orbital.tle":
-        return orbital_probe(ctx, f, in1, in2, {"line1": in1, "line2": in2}, [u for u in uses if u != "str(Orbital)"])
+        return orbital_probe(ctx, f, in1, in2, base, [u for u in uses if u != "str(Orbital)"], given)
     try:
-        if how == "read":
-            t = tlefile.read("x", line1=in1, line2=in2)
-        else:
-            t = tlefile.Tle("x", line1=in1, line2=in2)
+        t = build(how, in1, in2, given)
     except Exception as e:  # noqa
         ctx.violation("wellformed_rejected", case, "%s: %s" % (type(e).__name__, str(e)[:120]), "attributes decoded",
                       site="Tle.__init__")
         return 1
     ctx.count("eval_oracle")
-    if check_object(ctx, t, f, in1, in2, case):
+    if check_object(ctx, t, f, in1, in2, case, site="Tle._parse_tle" if given is None else "Tle._read_tle / tlefile.read"):
         return 1
-    if uses and use_probe(ctx, t, f, in1, in2, {"line1": in1, "line2": in2}, uses, how):
+    if uses and use_probe(ctx, t, f, in1, in2, base, uses, how):
         return 1
     if orbital:
-        return orbital_probe(ctx, f, in1, in2, {"line1": in1, "line2": in2}, uses)
+        return orbital_probe(ctx, f, in1, in2, base, uses, given)
     return 0
 
 
@@ -555,6 +650,10 @@ def oracle(ctx):
         # real element sets: check through the generic text route (fields read off the columns of the standard)
         f = fields_of_lines(l1, l2)
         oracle_case(ctx, f, l1, l2, l1, l2, uses=rng.sample(USE_NAMES, len(USE_NAMES)), orbital=True)
+        # the same lines passed together with a tle_file, through every entry point and both spellings
+        for how in ("Tle", "read", "Orbital.tle"):
+            for spelling in ("kw", "pos"):
+                oracle_case(ctx, f, l1, l2, l1, l2, how=how, given=draw_given(rng, spelling))
     while k < n:
         f = tlegen.full_range_fields(rng, statement_years=True) if rng.random() < 0.7 else tlegen.random_fields(rng, "any")
         l1, l2 = tlegen.encode(f)
@@ -569,6 +668,10 @@ def oracle(ctx):
         oracle_case(ctx, f, l1, l2, in1, in2, how=("read" if rng.random() < 0.1 else "Tle"), uses=uses,
                     orbital=(rng.random() < 0.04))
         k += 1
+        if rng.random() < 0.15:
+            # the lines AND a tle_file holding other element sets (same platform, other platforms): the object shows the LINES
+            oracle_case(ctx, f, l1, l2, in1, in2, how=rng.choice(["Tle", "Tle", "read", "read", "Orbital.tle"]),
+                        uses=(draw_uses(rng) if rng.random() < 0.2 else ()), given=draw_given(rng))
     # the 1-ulp claim of the eccentricity product
     if ctx.tier == "thorough":
         worst = ecc_exhaustive(ctx, 0, 10 ** 7)
@@ -661,7 +764,11 @@ def replay(ctx, case):
     if uses:
         print("sequence: object from %s, then %s, then every attribute read again" % (via, ", ".join(uses)))
     try:
-        oracle_case(c, f, s1, s2, l1, l2, how=via if via in ("Tle", "read", "Orbital.tle") else "Tle", uses=uses)
+        given = inp.get("tle_file") if isinstance(inp.get("tle_file"), dict) else None
+        if given is not None:
+            print("built from the lines AND tle_file (%s, platform %r, %s spelling) holding:\n%s" % (
+                given.get("kind"), given.get("platform"), given.get("spelling"), given.get("text")))
+        oracle_case(c, f, s1, s2, l1, l2, how=via if via in ("Tle", "read", "Orbital.tle") else "Tle", uses=uses, given=given)
     except Exception as e:  # noqa  (fields not well-formed: not a statement case)
         print("fields are not well-formed (%s): outside the statement" % e)
         return 0
